@@ -76,17 +76,21 @@ def _tla(v):
     raise TypeError(v)
 
 
-def mc_files(scn, tag, max_expire, defects, invariants, max_pad=0, helpers=(), unsched=None):
+def mc_files(scn, tag, max_expire, defects, invariants, max_pad=0, helpers=(), unsched=None, reg=None):
     """helpers: which helpers of presence.py run (extension): subset of ('kill', 'unreg').
-    unsched: (MaxPub, MaxSched) for the publish / _unschedule configuration (no containers)."""
+    unsched: (MaxPub, MaxSched) for the publish / _unschedule configuration (no containers).
+    reg: (MaxReg, Retries) for the EndpointPresence.register_* configuration (first container)."""
     mod = 'MC_Presence_%s_%s' % (scn['name'], tag)
     ext = scn['ext']
     ext_text = ('[srv |-> %s, plc |-> %s, sch |-> %s, sproot |-> %s, iorder |-> %s, fin |-> %s, '
                 'plcp |-> %s, sp |-> %s]' % (
                     _tla(ext['srv']), _tla(ext['plc']), _tla(ext['sch']), _tla(ext['sproot']),
                     _tla(ext['iorder']), _tla(ext['fin']), _tla(ext['plcp']),
-                    _tla(ext['sp']) if helpers or unsched else '<<>>'))
+                    _tla(ext['sp']) if helpers or unsched or reg else '<<>>'))
     conts, inst = (scn['conts'], scn['inst']) if not unsched else ([], None)
+    if reg:
+        conts = scn['conts'][:1]
+        inst = {c: scn['inst'][c] for c in conts}
     text = ('---- MODULE %s ----\nEXTENDS Presence\nScnHosts == %s\nScnConts == %s\n'
             'ScnInst == %s\nScnPaths == %s\nScnExt == %s\n====\n' % (
                 mod, _tla(scn['hosts']), _tla(conts), _tla(inst) if inst else '<<>>',
@@ -99,6 +103,7 @@ def mc_files(scn, tag, max_expire, defects, invariants, max_pad=0, helpers=(), u
            ' HelpKinds = {%s}' % ', '.join('"%s"' % k for k in helpers), ' Ext <- ScnExt',
            ' MaxPub = %d' % (unsched[0] if unsched else 0),
            ' MaxSched = %d' % (unsched[1] if unsched else 0),
+           ' MaxReg = %d' % (reg[0] if reg else 0), ' Retries = %d' % (reg[1] if reg else 13),
            ' MaxPad = %d' % max_pad,
            ' Defects = {%s}' % ', '.join('"%s"' % d for d in defects)]
     cfg += ['INVARIANT %s' % i for i in invariants]
@@ -286,7 +291,7 @@ def _record_chunk(chunk):
     out = []
     for k, it in chunk:
         scn = pd.SCENARIOS[it[0]]
-        ext = it[1][0] in 'xu'               # x: helpers of presence.py run too; u: _unschedule
+        ext = it[1][0] in 'xug'              # x: helpers of presence.py; u: _unschedule; g: register_*
         if it[1] == 'urnd':
             lines, executed, skipped = pd.run_random_unsched(scn, random.Random(it[2]), it[3])
         elif it[1] in ('rnd', 'xrnd'):
@@ -408,18 +413,23 @@ def judge(ctx, traces, verdicts, extra=None):
     drift_examples = []
     drifting = {v['tid'] for v in verdicts if any(f.startswith('drift.') for f in v['fail'])}
     xt = dict(traces=0, lines=0, helper_calls=0, helper_writes_judged=0, undisturbed_runs=0, unexplained=0,
-              publication_calls=0, unschedule=collections.Counter(),
+              publication_calls=0, unschedule=collections.Counter(), registration_lines=0,
               clauses=collections.Counter(), observations=collections.Counter(), examples=[])
-    xt['traces'] = sum(1 for t in traces if t['src'][0] in 'xu')
+    xt['traces'] = sum(1 for t in traces if t['src'][0] in 'xug')
     for v in verdicts:
         t = by_tid[v['tid']]
         fails = set(v['fail'])
-        if t['src'][0] in 'xu':
+        if t['src'][0] in 'xug':
             # extension beyond the listed property (DESIGN.md 10.6): conformance class only
             xt['lines'] += 1
             if t['lines'][v['i']]['ev'] == 'acall':
                 xt['helper_calls'] += 1
                 evaluations += 1                 # judged by C17.noForeign (write log of the store)
+            if t['lines'][v['i']]['ev'] in ('rcall', 'rend') or 'register.expire' in v['ex']:
+                xt['registration_lines'] += 1
+                evaluations += 1                 # judged by C17.ownsAfterRegister / keptAfterExpire
+                if PROP in v['ex']:
+                    nontrivial.add(core.hist_hash(t['schedule']))
             if t['lines'][v['i']]['ev'] == 'pcall':
                 xt['publication_calls'] += 1
                 evaluations += 1                 # judged by C17.unscheduleOwner
@@ -473,7 +483,7 @@ def judge(ctx, traces, verdicts, extra=None):
                     what='at line %d of %s (%s): %s' % (v['i'], t['tid'], t['src'], _show(line)),
                     replay_payload=dict(kind='presence', property=PROP, clause=f,
                                         scenario=t['scenario'], schedule=t['schedule'],
-                                        ext=t['src'][0] in 'xu',
+                                        ext=t['src'][0] in 'xug',
                                         failed_line=v['i'], line=json.loads(_show(line)))))
     # shortest failing schedule first, per clause
     violations.sort(key=lambda x: (x['clause'], len(x['replay_payload']['schedule']),
@@ -558,6 +568,64 @@ def _ext_obs(ctx):
                       timeout=100 if ctx.quick else 300)
     with concurrent.futures.ThreadPoolExecutor(2) as ex:
         return list(zip(EXT_OBSERVATIONS, ex.map(one, EXT_OBSERVATIONS)))
+
+
+# ---------------------------------------------------------------------------
+# presence.py: EndpointPresence.register_* (the registration path that does not go through
+# the presence service): it waits until it can OWN the node.
+REG_INV = ['OwnsAfterRegister', 'KeptAfterExpire', 'Ephemeral']
+
+
+def _register_mc(ctx):
+    scn = pd.SCENARIOS['a2']
+    bound = (2, 2) if ctx.quick else (3, 2)
+    runs = [('register_* a2: %d runs, %d tries, clean' % bound,
+             mc_files(scn, 'r', 0, ['olderSteals'], REG_INV, reg=bound)),
+            ('register_* a2: defect sameDataOk, OwnsAfterRegister must fail',
+             mc_files(scn, 'rd', 0, ['olderSteals', 'sameDataOk'], ['OwnsAfterRegister'], reg=bound))]
+
+    def one(run):
+        _title, (mod, cfg, files) = run
+        return tlc.mc(SPEC_DIR, mod, cfg, extra_files=files, coverage=False, workers=2,
+                      timeout=100 if ctx.quick else 600)
+    with concurrent.futures.ThreadPoolExecutor(2) as ex:
+        results = list(ex.map(one, runs))
+    return [(t, r) for (t, _f), r in zip(runs, results)]
+
+
+def _register_designed():
+    """The same host registers the same container again from a NEW session while the OLD
+    session's identical nodes still exist; the old session expires earlier (before the
+    run), during it (after k steps: while it waits for the identity / running / endpoint
+    node) or later (after the run gave up)."""
+    items = []
+    for name in ('a2', 'px'):
+        scn = pd.SCENARIOS[name]
+        c = scn['conts'][0]
+        h, other = scn['hosts'][:2]
+        old = pd.REG_SESSION + 1
+        base = [('RRun', [h, c, 'all'])]
+        for kind in ('all', 'identity', 'running', 'endpoints'):
+            items.append((name, 'gfix', base + [('Reap', [old, []]), ('RRun', [h, c, kind])]))
+            items.append((name, 'gfix', base + [('RRun', [h, c, kind]), ('Reap', [old, []])]))
+            for k in (0, 2, 7, 20):
+                items.append((name, 'gfix', base + [('RegBegin', [h, c, kind])] + [('RCall', [1])] * k +
+                              [('Reap', [old, []]), ('RRun', [h, c, 'cont'])]))
+        # another host wants the same instance: data differs
+        items.append((name, 'gfix', base + [('RegBegin', [other, c, 'all'])] + [('RCall', [1])] * 4 +
+                      [('Reap', [old, []]), ('RRun', [other, c, 'cont'])]))
+    return items
+
+
+def _register_schedules(ctx):
+    items = _register_designed()
+    scn = pd.SCENARIOS['a2']
+    mod, cfg, files = mc_files(scn, 'rgen', 0, ['olderSteals'], [], max_pad=40, reg=(3, 2))
+    behaviours, cmd = tlc.simulate(SPEC_DIR, mod, cfg, num=15 if ctx.quick else 300, depth=40,
+                                   seed=ctx.seed * 43 + 11, procs=2 if ctx.quick else 4,
+                                   extra_files=files, timeout=120 if ctx.quick else 600)
+    ctx.cmds.append(cmd)
+    return items + [('a2', 'gtlc', _sched(b)) for b in behaviours]
 
 
 def _ext_designed():
@@ -717,9 +785,10 @@ def _ext_schedules(ctx, obs):
 
 def run(ctx):
     t0 = time.time()
-    pool = concurrent.futures.ThreadPoolExecutor(4)
+    pool = concurrent.futures.ThreadPoolExecutor(5)
     f_obs = pool.submit(_ext_obs, ctx)
     f_uns = pool.submit(_unsched_mc, ctx)
+    f_reg = pool.submit(_register_mc, ctx)
     items = _model_check(ctx)
     ctx.log('model checking done (%.0fs)' % (time.time() - t0))
     f_ext = pool.submit(_ext_mc, ctx)           # long; overlaps the replay, joined before the verdict
@@ -729,7 +798,8 @@ def run(ctx):
         obs = f_obs.result()
         f_xs = ex.submit(_ext_schedules, ctx, obs)
         uns_runs = f_uns.result()
-        uitems = _unsched_schedules(ctx, uns_runs)
+        uitems = _unsched_schedules(ctx, uns_runs) + _register_schedules(ctx)
+        reg_runs = f_reg.result()
         sim = f_sim.result()
         cover, cover_info = f_cov.result()
         xitems, xinfo = f_xs.result()
@@ -743,6 +813,16 @@ def run(ctx):
             raise tlc.MachineryError('Presence.tla: %s violated in the clean _unschedule model' % res['violated'])
         if 'must fail' in title and res['violated'] != 'UnscheduleOwner':
             raise tlc.MachineryError('vacuity: UnscheduleOwner does not reject the defect unschedNowhere')
+    register = dict(spec='specs/node/Presence.tla (register_* section), clauses C17.ownsAfterRegister / '
+                         'C17.keptAfterExpire of PresenceTrace.tla', model_runs=[])
+    for title, res in reg_runs:
+        ctx.add_mc(title, res)
+        register['model_runs'].append(dict(name=title, distinct=res['distinct'], violated=res['violated'] or '',
+                                           complete=res['ok']))
+        if 'clean' in title and (res['violated'] or not res['ok']):
+            raise tlc.MachineryError('Presence.tla: %s violated in the clean register_* model' % res['violated'])
+        if 'must fail' in title and res['violated'] != 'OwnsAfterRegister':
+            raise tlc.MachineryError('vacuity: OwnsAfterRegister does not reject the defect sameDataOk')
     xitems = xitems + uitems
     for (key, inv, _what), res in obs:
         ctx.add_mc('extension observation %s: %s expected to fail (k2, 1 helper run)' % (key, inv), res)
@@ -792,7 +872,7 @@ def run(ctx):
         spec='specs/node/Presence.tla (helpers section), clauses ext.kill.* of PresenceTrace.tla',
         model_runs=[dict(name=title, distinct=res['distinct'], generated=res['generated'],
                          complete=res['ok'], violated=res['violated'] or '') for title, _n, res in ext_runs],
-        invariants=EXT_INV, observations=xinfo), unschedule=unsched)
+        invariants=EXT_INV, observations=xinfo), unschedule=unsched, register=register)
     return judge(ctx, traces, verdicts, extra=dict(transition_cover=cover_info, extensions=extensions))
 
 
